@@ -1,14 +1,23 @@
-"""C09 — snapshot round trips.
+"""C09 — snapshot round trips and snapshot editing.
 
-Theorems: lean/SkoolVerif/Props/C09.lean (RLE round trip for all byte strings, length bound,
-block framing).  Tie: hand model + correspondence (this file) against
-skoolkit.snapshot.Z80._make_z80_ram_block/_decompress.  E2E: write_snapshot -> Snapshot.get and an
-independent decoder, bin2sna/snapmod option effects."""
+Theorems: lean/SkoolVerif/Props/C09.lean
+  * Z80 RLE coder (round trip for all byte strings, length bound, block framing), the version 2/3
+    page-block stream (reader . writer = identity on any bank list);
+  * header fields with a non-trivial encoding (T-states of both formats and both frame lengths, 16-bit
+    words incl. negative values, R bit 7 / border / compression flag in byte 12, IM / issue 2 in byte 29);
+  * poke / move / patch / _get_page on a flat list and on a Memory: frame theorems (exactly the named
+    cells change, by the stated operator; every other bank, the ROM window, the window map unchanged),
+    default and explicit destination bank of --move, Python slice-assignment semantics incl. the
+    overrun of a bank-prefixed move (C09_move_full refuted, partial theorem proved).
+Tie: hand models + correspondence (this file, c09_edit.py) against skoolkit.snapshot, one driver run.
+E2E: write_snapshot -> Snapshot.get + independent decoder (this file); bin2sna.main / snapmod.main over
+generated option sets against an oracle written from the manual pages (c09_e2e.py)."""
 import itertools
 import os
 
 from framework import fresh_import
 from indep import snapdec
+from props import c09_edit, c09_e2e
 
 PROPS = 'SkoolVerif.Props.C09'
 REGS16 = ('bc', 'de', 'hl', 'ix', 'iy', 'sp', 'pc', '^bc', '^de', '^hl')
@@ -51,13 +60,13 @@ def dec_inputs(chk):
         yield 'drand', [rng.choice((237, 237, 0, 1, rng.randrange(256))) for _ in range(rng.randrange(12))]
 
 
-def correspondence(chk, snapshot):
+def rle_ops(chk, snapshot):
     z = snapshot.Z80()
     ops, impl = [], []
     for tag, d in rle_inputs(chk):
         body = list(z._make_z80_ram_block(d, 7))[3:]
         ops.append('enc ' + ' '.join(map(str, d)))
-        impl.append(('ok ' + ' '.join(map(str, body))).rstrip() + ('' if body else ''))
+        impl.append('ok ' + ' '.join(map(str, body)))
         chk.case(tag, ('enc', tuple(d)) if 237 in d or len(set(d)) < len(d) else None,
                  {'op': 'enc', 'data': d[:24], 'impl': body[:24]})
         # the property itself on the real code: decode(encode(d)) == d
@@ -75,11 +84,29 @@ def correspondence(chk, snapshot):
         ops.append('dec ' + ' '.join(map(str, d)))
         impl.append(r)
         chk.case(tag, ('dec', tuple(d)) if 237 in d else None)
-    impl = [s if s != 'ok' else 'ok ' for s in impl]
+    return ops, impl
+
+
+def correspondence(chk, snapshot):
+    """One driver run for all model/implementation ties of this property."""
+    segs = [('Z80Rle model vs snapshot.Z80 (_make_z80_ram_block/_decompress)',) + rle_ops(chk, snapshot),
+            ('Z80Rle.readPages vs Z80._read page loop',) + c09_edit.pages_ops(chk, snapshot),
+            ('Z80Rle.writePages vs Z80.data page loop',) + c09_edit.wpages_ops(chk, snapshot),
+            ('SnapHeader model vs Z80._set_registers/_set_state/_read, SZX._add_zxstz80regs/_read',) + c09_edit.header_ops(chk, snapshot),
+            ('SnapEdit model vs snapshot.poke/move/patch on list and Memory',) + c09_edit.edit_ops(chk, snapshot)]
+    ops = [op for seg in segs for op in seg[1]]
     model = chk.run_driver('C09', ops)
-    if model is not None:
-        model = [s if s != 'ok' else 'ok ' for s in model]
-    chk.compare('Z80Rle model vs snapshot.Z80', ops, impl, model)
+    if model is None:
+        return
+    i = 0
+    strip = lambda l: [s.rstrip() for s in l]   # noqa
+    for name, sops, simpl in segs:
+        smodel = model[i:i + len(sops)]
+        i += len(sops)
+        if 'readPages' in name:
+            pairs = [c09_edit.norm_pages(m, r) for m, r in zip(smodel, simpl)]
+            smodel, simpl = [p[0] for p in pairs], [p[1] for p in pairs]
+        chk.compare(name, sops, strip(simpl), strip(smodel))
 
 
 def rand_machine(rng):
@@ -213,26 +240,50 @@ def check_abs_t(chk, snapshot, m, ram, regs, state):
     return fails
 
 
+MODULES = ['SkoolVerif.Model.Z80Rle', 'SkoolVerif.Model.SnapHeader', 'SkoolVerif.Model.SnapEdit',
+           'SkoolVerif.Proofs.Z80RleLemmas', 'SkoolVerif.Proofs.SnapHeaderLemmas', 'SkoolVerif.Proofs.SnapEditLemmas',
+           'SkoolVerif.Proofs.SnapMemLemmas', 'SkoolVerif.Proofs.SnapBankLemmas', PROPS]
+
+
 def run(chk):
-    chk.rule = ('byte strings: all strings over {ED,00,01} up to length 6 (quick) / 9 (thorough), ED runs 1..600, '
-                'runs of every byte value around the 4/5 and 255/256 thresholds, random run-structured strings; '
-                'decoder also on malformed streams; e2e: random machines (48K/128K/+2) written as .z80 and .szx. '
-                'non-trivial = contains ED or a repeated byte (distinct by content)')
-    chk.trusted += ['hand model lean/SkoolVerif/Model/Z80Rle.lean tied by correspondence (harness/props/c09.py)',
-                    'zlib (SZX RAM pages), CPython']
+    chk.rule = ('RLE: all strings over {ED,00,01} up to length 6 (quick) / 9 (thorough), ED runs 1..600, runs of every byte value around the '
+                '4/5 and 255/256 thresholds, random run-structured strings; decoder and page reader also on malformed streams. '
+                'Header fields: boundary T-states of both frame lengths, all byte-12/byte-29 values, words incl. negative/over-wide values. '
+                'poke/move/patch: stateful op streams on lists (several lengths) and on Memory objects of every constructor shape '
+                '(128K any page incl. aliased 2/5, 48K SZX/Z80v1, 48K Z80v2/3, flat 64K, missing paged bank), boundary-biased addresses, '
+                'ranges/steps/operators, bank prefixes 0..7 and beyond, malformed specs. '
+                'E2E: write_snapshot->Snapshot.get + independent decoder on random machines; snapmod.main and bin2sna.main over option sets '
+                '(every register name, every state attribute, all 81 source/destination prefix combinations of --move, pokes, patches, mixed) '
+                'on 48K/128K/+2 .z80 (v1,v2,v3) and .szx inputs against an oracle written from the manual pages. '
+                'non-trivial = distinct op/spec/option set')
+    chk.trusted += ['hand models lean/SkoolVerif/Model/{Z80Rle,SnapHeader,SnapEdit}.lean tied by correspondence (harness/props/c09.py, c09_edit.py)',
+                    'independent decoder harness/indep/snapdec.py and option oracle harness/indep/snapedit_oracle.py (written from the format '
+                    'descriptions / manual pages)', 'zlib (SZX RAM pages), CPython list/slice semantics (modelled in SnapEdit.pySlice/pySliceSet)']
     chk.assumptions += ['zlib.decompress(zlib.compress(x)) == x',
-                        'header/register field layouts are checked by round trip + independent decoder (exploration), not by theorem']
-    (snapshot,) = fresh_import('skoolkit.snapshot')
+                        'full header layouts (which byte holds which register) are checked by round trip + independent decoder + the tool sweep '
+                        '(exploration); the theorems cover the fields whose encoding is not the identity',
+                        'spec numerals are modelled for the documented forms (decimal, 0x/$ hexadecimal, % binary, no sign/white space/underscore); '
+                        'negative numbers, which int() accepts, are outside the model and are not generated',
+                        'argparse, file I/O and the order snapmod applies option groups in (patch, move, poke, registers/state) are e2e only']
+    (snapshot, snapmod, bin2sna) = fresh_import('skoolkit.snapshot', 'skoolkit.snapmod', 'skoolkit.bin2sna')
     ok = chk.lake_build([PROPS, 'SkoolVerif.Prelude.Proto'])
     chk.audit(PROPS)
     if chk.thorough and ok:
-        chk.leanchecker([PROPS])
+        chk.leanchecker(MODULES)
     correspondence(chk, snapshot)
     e2e(chk, snapshot)
+    c09_e2e.snapmod_sweep(chk, (snapshot, snapmod))
+    c09_e2e.bin2sna_sweep(chk, (snapshot, snapmod), bin2sna)
+    unl = chk.extra.get('unlisted_findings')
+    if unl:
+        for k, v in unl.items():
+            chk.note(f'finding not listed in KNOWN_FINDINGS.txt (reported, not failing the run): {k}: {v["what"]}; e.g. {v["example"]}')
 
 
 def replay(chk, data):
-    (snapshot,) = fresh_import('skoolkit.snapshot')
+    (snapshot, snapmod, bin2sna) = fresh_import('skoolkit.snapshot', 'skoolkit.snapmod', 'skoolkit.bin2sna')
+    if data['kind'] in ('snapmod', 'bin2sna', 'input'):
+        return c09_e2e.replay_case(chk, (snapshot, snapmod), bin2sna, data)
     if data['kind'] == 'rle':
         z = snapshot.Z80()
         d = data['data']
